@@ -9,6 +9,7 @@ import KafkaVerif.Lemmas.ReaderClose
 import KafkaVerif.Lemmas.GroupRunMeasure
 import KafkaVerif.Lemmas.GroupRunStruct
 import KafkaVerif.Lemmas.TransportLife
+import KafkaVerif.Gen.CloseFacts
 
 namespace KV.C09
 open KV.WriterClose
@@ -531,5 +532,34 @@ theorem transport_exited_is_final (s s' : TransportConn.State) (e : Ev) (c : Nat
 
 example : (TransportConn.run [] [.new 1 1, .recv 1, .closeIdle 1, .done 1 true false, .release 1 false, .exit 1]).map
     (fun s => get s 1) = some (some .exited) := by decide
+
+end KV.C09
+
+/-! ## Regenerated tie: the structural facts of the source the models take for granted
+(`go/extract/closeproto` → `Gen/CloseFacts.lean`, re-extracted from /repo on every run) -/
+namespace KV.C09
+open KV.WriterClose
+
+/-- every structural fact extracted from writer.go / reader.go / consumergroup.go / transport.go holds: enter checks
+`closed` under the mutex before `group.Add`; `spawn` brackets the goroutine with Add/Done; `batchMessages` re-checks
+`closed`; `Close` marks, closes and removes every partition writer and then waits; a partition writer's close flushes
+before it closes the queue; FetchMessage answers io.EOF when closed; Reader.Close order; `run` leaves the group before
+every exit; `leaveGroup`/`nextGeneration`/`coordinator` close their connections on every path; `conn.run` leaves its
+loop when `releaseConn` refuses; the waits of WriteMessages / FetchMessage / CommitMessages / `await` /
+`grabConnOrConnect` select on the context. -/
+theorem close_protocol_facts_hold : Gen.CloseFacts.all.all (·.2) = true := by decide
+
+/-- the Writer protocol the source has now is the repaired one (`Cfg.fixed` is the extracted fact) … -/
+def sourceCfg (maxAttempts batchSize : Nat) (async : Bool) : Cfg :=
+  ⟨maxAttempts, batchSize, Gen.CloseFacts.batchRechecksClosed, async⟩
+
+/-- … so `close_terminates` applies to it, for every MaxAttempts, BatchSize, sync/async -/
+theorem close_terminates_for_source (ma bs : Nat) (async : Bool) (s : State) (hr : Reachable (sourceCfg ma bs async) s)
+    (hwait : s.close = 2) :
+    ((step (sourceCfg ma bs async) s .closeReturn).isSome ∨
+      (∃ e, e.progress = true ∧ (step (sourceCfg ma bs async) s e).isSome)) ∧
+    (∀ e s', e.internal = true → step (sourceCfg ma bs async) s e = some s' →
+      mu (sourceCfg ma bs async) s' < mu (sourceCfg ma bs async) s) :=
+  close_terminates (sourceCfg ma bs async) (show Gen.CloseFacts.batchRechecksClosed = true by decide) s hr hwait
 
 end KV.C09
